@@ -30,6 +30,26 @@ ASSUMPTIONS = [
 
 REL = 1e-9
 
+# source tie (harness/translate.py, dialect 'obj' of harness/translate_obj.py -> lean/TaurexModel/Gen/SrcC18.lean, tied to
+# TaurexModel/Variance.lean in lean/Props/C18Src.lean).  `mean` / `M2` are None until the first update: `Option α`.
+_MA = 'taurex/util/math.py'
+_OV = {'self.count': ('count', 's'), 'self.wcount': ('wcount', 's'), 'self.wcount2': ('wcount2', 's'),
+       'self.mean': ('mean', 'opt'), 'self.M2': ('M2', 'opt')}
+_OVS = ['self.count', 'self.wcount', 'self.wcount2', 'self.mean', 'self.M2']
+SRC_SPECS = [
+    dict(module=_MA, cls='OnlineVariance', func='reset', lean='OnlineVariance_reset', callname='self.reset', dialect='obj',
+         params={}, attrs=_OV, state=_OVS),
+    dict(module=_MA, cls='OnlineVariance', func='update', lean='OnlineVariance_update', dialect='obj',
+         params=dict(value='s', weight='s'), attrs=_OV, state=_OVS,
+         raise_value='(count, wcount, wcount2, none, none)'),
+    dict(module=_MA, cls='OnlineVariance', func='variance', lean='OnlineVariance_variance', dialect='obj',
+         params={}, attrs=dict(_OV, **{'np.nan': ('np_nan', 's')}), raise_value='np_nan'),
+    # the pooled combination; `None` accumulators, `continue`, TypeError on a None operand (result `none`)
+    dict(module=_MA, cls='OnlineVariance', func='combine_variance', lean='combine_variance', dialect='obj',
+         params=dict(averages='list', variance='list', counts='list'), identity={'np.nan': 'is_np_nan'},
+         returns=['s', 's'], raises='option'),
+]
+
 
 # ----------------------------------------------------------------------------- helpers
 def res_of(dec):
